@@ -224,6 +224,8 @@ def gen_fields(P, tps, fields, rename_all, deny, loop_no, ctx_inv, ctx_ghost, fu
         v = f["ident"]
         if f.get("default"):
             inv.append(f"                        !({v} is Missing), deserr_error__ is None ==> {v} is Some,   // [C08:{P}_{v}_default_never_missing]")
+            if f["ty"].startswith("Option<"):
+                inv.append(f"                        {P}_last(es, gi, {i}) < 0 ==> {v} is Some && {v}->Some_0 is None,   // [C08:{P}_{v}_keeps_its_default_while_its_key_is_absent]")
         else:
             inv.append(f"                        ({v} is Missing) <==> {P}_last(es, gi, {i}) < 0,   // [C07,C08:{P}_{v}_missing_iff_key_absent]")
         if f.get("try_from"):
@@ -234,7 +236,7 @@ def gen_fields(P, tps, fields, rename_all, deny, loop_no, ctx_inv, ctx_ghost, fu
             inv.append(f"                        deserr_error__ is None && {P}_last(es, gi, {i}) >= 0 ==> fs_repr::<{f['ty']}, __Deserr_E, V>({v}, es[{P}_last(es, gi, {i})].1.spec_into_value()),   // [C07:{P}_{v}_filled_from_its_effective_key]")
     for f in fields:
         if f.get("skip"):
-            inv.append(f"                        {f['ident']} is Some,   // [C08:{P}_{f['ident']}_skipped_keeps_its_default]")
+            inv.append(f"                        {f['ident']} is Some" + (f" && {f['ident']}->Some_0 is None" if f["ty"].startswith("Option<") else "") + f",   // [C08:{P}_{f['ident']}_skipped_keeps_its_default]")
     it = f"it__{loop_no}"
     loop_inv = f'''                    invariant_except_break
                         gi + {it}.remaining().len() == es.len(),
@@ -337,8 +339,9 @@ def gen_struct(s, expanded_path):
         if f.get("try_from"): return f" && ({last} >= 0 ==> self.{f['ident']} == {fn['try']}_val(src_val({v})))"
         if f.get("from"): return f" && ({last} >= 0 ==> self.{f['ident']} == {fn['from']}_val(src_val({v})))"
         if f.get("map"): return f" && ({last} >= 0 ==> mapped_repr::<{f['ty']}, __Deserr_E, V>(self.{f['ident']}, {v}, |c_: {f['ty']}| {fn['map'](f)}_val::<{f['ty']}>(c_)))"
-        return f" && ({last} >= 0 ==> self.{f['ident']}.represents({v}))"
-    repr_clauses = "".join(repr_clause(i, f) for i, f in enumerate(ns))
+        dflt = f" && ({last} < 0 ==> self.{f['ident']} is None)" if (f.get("default") and f["ty"].startswith("Option<") and not f.get("map")) else ""
+        return f" && ({last} >= 0 ==> self.{f['ident']}.represents({v}))" + dflt
+    repr_clauses = "".join(repr_clause(i, f) for i, f in enumerate(ns)) + "".join(f" && self.{f['ident']} is None" for f in s["fields"] if f.get("skip") and f["ty"].startswith("Option<"))
     # contracts of the stand-in user functions (assumed: they are the user's code; what is *checked* is every call site's precondition)
     fdecl = []
     lit = lambda k: '"' + k + '"@'
@@ -434,7 +437,7 @@ pub open spec fn {P}_fields_accept<V: IntoValue, E: DeserializeError>(es: Seq<(S
         value is Map && ({{ let es = value->Map_0.entries(); self == {fn['validate']}_val({P}_value(es)) }})
     }}
 '''
-    dirs = ["@@attr\n    #[verifier::rlimit(40)]\n", "@@rewrite strmatch\n"] + (["@@rewrite map_err\n"] if s.get("validate") else []) + ["@@body-start\n        broadcast use group_derive;\n" + ("        broadcast use group_fns;\n" if uses_fns(s) else "") + g["ghost"]] + g["dirs"]
+    dirs = ["@@attr\n    #[verifier::rlimit(100)]\n", "@@rewrite strmatch\n"] + (["@@rewrite map_err\n"] if s.get("validate") else []) + ["@@body-start\n        broadcast use group_derive;\n" + ("        broadcast use group_fns;\n" if uses_fns(s) else "") + g["ghost"]] + g["dirs"]
     if s.get("validate"):
         dirs.append(f'''@@at after "let deserr_final__ ="
         proof {{
@@ -539,7 +542,7 @@ def gen_tagged_enum(e, expanded_path):
         let ghost tagv = es0[ti].1.spec_into_value();
         proof {{ lemma_first_key_index_bounds(es0, {K}); lemma_prefix_push(p, Step::Key({K})); }}
 '''
-    dirs = ["@@attr\n    #[verifier::rlimit(40)]\n", "@@rewrite strmatch\n", "@@rewrite ok_or_else\n"]
+    dirs = ["@@attr\n    #[verifier::rlimit(100)]\n", "@@rewrite strmatch\n", "@@rewrite ok_or_else\n"]
     ghosts = [ctx_ghost]
     acc_arms, trace_arms, repr_arms = [], [], []
     loop_no = 0
